@@ -361,7 +361,11 @@ var strPool = []string{"", "a", "hello", "with space", "quote\"d", "back\\slash"
 var ctrlPool = []string{"nul\x00z", "\x01", "esc\x1b[0m", "del\x7f", "bell\x07", "us\x1f", "\x02\x03", "ls\u2028ps\u2029", "real \ufffd replacement char", "nel\u0085", "\x0b vt \x0e so",
 	// bytes that are not UTF-8 (a resolver may hand out anything): a lone 0xff before ordinary characters, before a quote, as
 	// the last byte, a truncated two-byte sequence at the very end
-	"a\xffbcd", "q\xff\"b\\", "last\xff", "caf\xc3"}
+	"a\xffbcd", "q\xff\"b\\", "last\xff", "caf\xc3",
+	// long plain text with a character that needs a six-byte escape at offsets 56..62 (buffer boundaries of a writer)
+	"the quick brown fox jumps over the lazy dog and then some more\x1b!", "0123456789012345678901234567890123456789012345678901234567\x01cafe",
+	"0123456789012345678901234567890123456789012345678901234567 \x1f tail", "abcdefghijklmnopqrstuvwxyzabcdefghijklmnopqrstuvwxyzabcdef\x02\x03\x04\x05\x06 end",
+	"012345678901234567890123456789012345678901234567890123456\x1b0123456789012345678901234567890123456789012345678901234567\x1b"}
 
 // RandString draws a string with occasional awkward content.
 func RandString(r *rand.Rand) string {
